@@ -179,14 +179,19 @@ class FileResponseMixin:
         if unit != "bytes":
             raise MalformedRangeHeader("Only support bytes range")
 
-        ranges = [
-            (
-                int(_[0]) if _[0] else max_size - int(_[1]),
-                int(_[1]) + 1 if _[0] and _[1] and int(_[1]) < max_size else max_size,
-            )
-            for _ in re.findall(r"(\d*)-(\d*)", ranges_str)
-            if _ != ("", "")
-        ]
+        try:
+            ranges = [
+                (
+                    int(_[0]) if _[0] else max_size - int(_[1]),
+                    int(_[1]) + 1
+                    if _[0] and _[1] and int(_[1]) < max_size
+                    else max_size,
+                )
+                for _ in re.findall(r"(\d*)-(\d*)", ranges_str)
+                if _ != ("", "")
+            ]
+        except ValueError:  # a digit string beyond the int conversion limit
+            raise MalformedRangeHeader("Range header: position is too large")
 
         if len(ranges) == 0:
             raise MalformedRangeHeader("Range header: range must be requested")
